@@ -219,3 +219,21 @@ package ecs
 //@   requires batch != nil && tablesIdent(&w.storage) && indexInv(&w.storage)
 //@   requires w.storage.observers != nil && obsShape(w.storage.observers) && lockInv(&w.storage.locks) && w.storage.locks.locks.bits != 0xffffffffffffffff
 //@   assert   fn rows: uint64(__arg0) < uint64(ntables(w)) && uint64(__arg1) + uint64(__arg2) == uint64(s0len(w, __arg0))
+
+// ---- entity creation through the world (C02, C01) ------------------------------------------------
+
+//@ func (*World).newEntity
+//@   serves C02 C01
+//@   maypanic
+//@   requires indexInv(&w.storage) && tablesIdent(&w.storage) && len(w.storage.tables) > 0 && uint64(len(w.storage.entityPool.entities)) < 1<<32 - 1
+//@   requires lockInv(&w.storage.locks)
+//@   assert   Get tg0: forall k int :: __trigger(relations[k].target) && (0 <= k && k < len(relations) ==> uint64(relations[k].target.id) < uint64(len(w.storage.isTarget)))
+//@   assert   Add tg1: forall k int :: __trigger(relations[k].target) && (0 <= k && k < len(relations) ==> uint64(relations[k].target.id) < uint64(len(w.storage.isTarget)))
+//@   ensures  fresh: !old(epIssued(&w.storage.entityPool)[result0]) && epIssued(&w.storage.entityPool)[result0] && alive(&w.storage.entityPool, result0)
+//@   ensures  others: forall h Entity :: h.id != result0.id ==> alive(&w.storage.entityPool, h) == old(alive(&w.storage.entityPool, h))
+//@   ensures  placed: uint64(w.storage.entities[result0.id].table) < uint64(len(w.storage.tables))
+//@        && w.storage.entities[result0.id].row == w.storage.tables[w.storage.entities[result0.id].table].len - 1
+//@        && rowEnt(&w.storage.tables[w.storage.entities[result0.id].table])[w.storage.entities[result0.id].row] == result0
+//@   ensures  index-kept: forall i uint32 :: __trigger(w.storage.entities[i].row) && (uint64(i) < uint64(old(len(w.storage.entities))) && entityID(i) != result0.id ==> w.storage.entities[i] == old(w.storage.entities[i]))
+//@   ensures  count: *epAlive(&w.storage.entityPool) == old(*epAlive(&w.storage.entityPool)) + 1
+//@   ensures  mask: result1 != nil
